@@ -1040,10 +1040,16 @@ fn dual_gradient(
 
 pub fn run_c09(st: &Shared, tier: Tier) -> RunReport {
     let mut rep = RunReport::default();
-    let kind = match st.borrow_mut().ch.choose("kind", 3) {
+    let kind_choice = st.borrow_mut().ch.choose("kind", 4);
+    let kind = match kind_choice {
         0 => Kind::D2,
         1 => Kind::D3,
-        _ => Kind::Mesh,
+        2 => Kind::Mesh,
+        _ => {
+            // E5: one tape shared by several logical threads
+            crate::e5::run(st, tier, &mut rep);
+            return rep.finish(st);
+        }
     };
     let work = gen_work(&mut st.borrow_mut().ch, kind, tier);
     let b = build(&work);
